@@ -1,18 +1,110 @@
-"""C15 (stub while building)"""
+"""C15 -- compiled kernels equal their source semantics under every thread count.
+
+Proof part (kernvc): every function of the three .pyx files against its sidecar contract
+(contracts/kernels.py): defining sums, memory safety, thread independence, pragma audit.
+Bounded stand-in (never counted as proved): interpretation of the lowered source vs the compiled
+artefact; thorough tier: -fopenmp rebuild, bitwise comparison across thread counts.
+"""
 LEVEL = "proof"
-MANIFEST = {"engine": "kernvc", "category": "proof", "text": "x", "level_note": "x", "technique": "x"}
+MANIFEST = {
+    "engine": "kernvc",
+    "category": "proof",
+    "text": "For every function of field/summator.pyx, krige/krigesum.pyx and variogram/estimator.pyx "
+            "(9 entry points, 14 cdef helpers, set_num_threads) the current source is lowered mechanically "
+            "and verified against a sidecar contract for ALL array shapes and (real) values: result = the "
+            "defining sums (loop invariants: init / preserve / exit per loop), every array access in bounds, "
+            "no division by zero, no arithmetic on NaN-flagged elements, C-int fit, and for each prange / "
+            "parallel() region ownership of written elements, definite assignment and non-escape of scalars, "
+            "scalar-only redundant regions and an audit of the OpenMP pragmas of the generated C. "
+            "Obligations are discharged by z3 (cvc5 / z3 CLI as fallback).",
+    "level_note": "Proved at the level of the lowered .pyx source over the reals (T1: floats as reals + NaN "
+                  "flag; int64 counters assumed not to overflow). Shape preconditions that the kernels do not "
+                  "check themselves (z_1.shape[0] >= N, krig_mat square, mask.shape == f.shape, "
+                  "direction.shape[1] >= dim, non-zero wave vectors for summate_incompr) are stated as "
+                  "'requires' and are obligations on the Python callers (C05/C11). directional is proved here "
+                  "against the kernel-level first-match semantics of Appendix A; its agreement with the "
+                  "definition is C08. 'The compiled artefact agrees with a plain interpretation of its own "
+                  "source' and bit-identity across thread counts of the real OpenMP build are NOT proved (T6: "
+                  "Cython/gcc/OpenMP trusted): they are covered by bounded obligations (status bounded_ok, "
+                  "sizes 0..40 quick / ..128 thorough; thorough rebuilds the generated C with -fopenmp and "
+                  "compares bitwise for num_threads in {None,1,2,3,4,8,16}); thread independence itself is "
+                  "proved at source level from ownership + definite assignment + implicit barriers.",
+    "technique": "contract-based deductive verification: mechanical .pyx->ast lowering, symbolic forward "
+                 "execution with loop invariants from sidecar contracts, recursive spec sums with ground "
+                 "unfolding and E-matching axioms, modular calls by contract, SMT (z3/cvc5); dataflow for "
+                 "definite assignment; C pragma audit; differential testing as bounded stand-in",
+}
 
 
 def run(rep, tier, seed, only=None):
     import contracts.kernels as K
-    from gsvc import kern_run, lower_pyx
+    from gsvc import kern_run, kern_diff, lower_pyx
+    rep.backend_cmd = "./check C15 --tier %s   (z3 python API %s; fallback /usr/bin/cvc5, /usr/bin/z3)" % (
+        tier, __import__("z3").get_version_string())
     kr = kern_run.KernRun(rep, "C15", K, tier, seed)
     kr.lowering_evidence(list(lower_pyx.KERNEL_FILES))
     targets = [(rp, fn) for rp, low in kr.eng.lows.items() for fn in low.funcs]
-    kr.run(targets, kern_run.SAFETY_KINDS | kern_run.FUNCTIONAL_KINDS | {"canary"}, only=only)
+    if not only or "artefact" not in only:
+        kr.run(targets, kern_run.SAFETY_KINDS | kern_run.FUNCTIONAL_KINDS | {"canary"}, only=only)
+    if not only or "artefact" in only or any(only in fn for _, fn in kern_diff.ENTRY_POINTS):
+        kern_diff.run_differential(rep, "C15", kr.eng, tier, seed, only=None if (only and "artefact" in only) else only)
+        if tier == "thorough":
+            kern_diff.run_threads(rep, "C15", kr.eng, seed, only=None if (only and "artefact" in only) else only)
+    _trust(rep)
+    for o in rep.obls[:400]:
+        if o.id.endswith("summate/loop.j.preserve") or o.id.endswith("unstructured/loop.m.preserve") \
+                or o.id.endswith("par.i.ownership.summed_modes") or o.id.endswith("summate/artefact.differential"):
+            rep.sample(o.to_json())
+    rep.sample({"contract": "field/summator.pyx:summate", "requires": K.CONTRACTS["field/summator.pyx:summate"]["requires"],
+                "ensures": K.CONTRACTS["field/summator.pyx:summate"]["ensures"],
+                "invariants": K.CONTRACTS["field/summator.pyx:summate"]["invariants"],
+                "spec_S": K.SPEC["S"]["term"]})
+    rep.explanation = ("Each obligation is one named proof obligation generated from the current .pyx text; "
+                       "'discharged' counts only unsat answers (or established dataflow/audit facts); the "
+                       "artefact.* obligations are bounded differential checks and are reported under "
+                       "bounded_obligations.")
+
+
+def _trust(rep):
+    rep.trust("T1 real arithmetic: doubles are mathematical reals plus a NaN flag on arrays tested with isnan; "
+              "rounding, overflow to inf, -0.0 not modelled (the thread-independence argument does not use this)")
+    rep.trust("T6 Cython 3.0.12 + gcc + OpenMP translate the .pyx faithfully (bounded differential stand-in only)")
+    rep.trust("lowering rules of gsvc/lower_pyx.py (dropped tokens listed under lowering_dropped)")
+    rep.trust("z3 5.1 / cvc5 soundness; the kernvc VC generator (validated by the mutation corpus in "
+              "contracts/kernels_validation.md)")
+    rep.trust("libm functions cos, sin, sqrt, acos, atan2 are uninterpreted functions (only congruence is used); "
+              "pow(x, 2) is x*x; M_PI is a real constant in (3.14159, 3.1416)")
+    rep.assume("np.int64 pair counters do not overflow (pairs * fields < 2^63)")
+    rep.assume("array shapes < 2^31 (stated as int32(...) preconditions); inputs other than the field array f "
+               "of unstructured/directional contain no NaN")
+    rep.assume("shape preconditions not checked by the kernels (see level_note) hold at the call sites "
+               "(obligations on RandMeth/Fourier/Krige/vario_estimate*, properties C05/C11/C09)")
+    rep.assume("numpy contracts: np.zeros(shape) is a fresh zero array of that shape, np.empty fresh with "
+               "arbitrary content, np.asarray(memoryview) the same data; distinct memoryview parameters of a "
+               "kernel do not overlap a freshly allocated output")
+    rep.assume("the interpreter prange semantics is sequential; OpenMP semantics enters only through the "
+               "ownership/definite-assignment/barrier argument and the pragma audit")
 
 
 def replay(path):
+    import json
     import contracts.kernels as K
     from gsvc import kern_run
+    data = json.load(open(path))
+    rp = data.get("replay") or {}
+    if rp.get("kind") == "differential":
+        from gsvc import kern_diff, kern_native, kern_interp, lower_pyx
+        import numpy as np
+        low = lower_pyx.lower_file(rp["relpath"])
+        fi = low.funcs[rp["function"]]
+        inp = kern_native.inputs_from_json(fi, rp["inputs"])
+        mod = kern_native.load_compiled(low)
+        a = kern_interp.run(low, rp["function"], inp)
+        try:
+            b = ("ok", getattr(mod, rp["function"])(*kern_diff._args(fi, inp)))
+        except ValueError as e:
+            b = ("raise", "ValueError")
+        same = a[0] == b[0] and (a[0] != "ok" or kern_diff._cmp(a[1], b[1])[0])
+        print("interpretation:", a[0], "compiled:", b[0], "agree:", same)
+        return 0 if same else 1
     return kern_run.replay_file(path, K)
